@@ -30,7 +30,7 @@ def run(d):
             os.makedirs(os.path.join(vdir, 'evidence'), exist_ok=True)
             for f in ('known_findings.jsonl', 'properties.jsonl'):
                 shutil.copy('/verif/' + f, vdir)
-            q = subprocess.run(['/verif/bin/fxcheck', '-prop', prop, '-verif', vdir],
+            q = subprocess.run([os.environ.get('FXBIN', '/verif/bin/fxcheck'), '-prop', prop, '-verif', vdir],
                                env=dict(os.environ, FXCHECK_OVERLAY=','.join(ov)), capture_output=True, text=True)
             out = q.stdout + q.stderr
             reps = [l for l in out.splitlines() if l.startswith('REPORT ')]
